@@ -51,7 +51,13 @@ void h_ev_wait_resume(void) {
   if (C08_EV_WAITERS < 3) __CPROVER_assume(p_d1 == 0 || p_d2 == 0);
   if (C08_EV_WAITERS < 2) __CPROVER_assume(p_d1 == 0 && p_d2 == 0);
   g_wake_kind = nondet_bool() ? WAKE_READY : WAKE_CLOSE;
-  WITH_CONCRETE_VALID_FD(fd, wait_resume_body);
+#ifdef C08_EV_FD
+  /* one job per descriptor value: a constant index keeps the encoding of the union-typed spinlock small */
+  __CPROVER_assume(fd == C08_EV_FD);
+  wait_resume_body(C08_EV_FD);
+#else
+  wait_resume_body(fd);
+#endif
 }
 
 void h_ev_close_idle(void) {
